@@ -246,7 +246,7 @@ func checkStateResponse(c *fw.Ctx) {
 		fmt.Println("DEBUG C14 errConds:", all)
 	}
 	c.Check(strings.Count(all, ".StateKey(") >= 2 && (strings.Contains(all, " == nil") || strings.Contains(all, " != nil)")), rule, "non-state events make the response fail (auth and state lists)", c.P.Pos(fn.Pos()), "", "fewer than two refusals on a nil state key")
-	c.Check(strings.Contains(all, "makemap[*local:*gmsl.StateKeyTuple]") || strings.Contains(all, "StateKeyTuple"), rule, "duplicate (type, state_key) tuples make the response fail", c.P.Pos(fn.Pos()), "", "no refusal on a repeated state tuple")
+	c.Expect(strings.Contains(all, "makemap[*local:*gmsl.StateKeyTuple]") || strings.Contains(all, "StateKeyTuple"), rule, "duplicate (type, state_key) tuples make the response fail", c.P.Pos(fn.Pos()), "", "no refusal on a repeated state tuple")
 	// what is returned are the parsed lists
 	for _, r := range fw.Returns(fn) {
 		if len(r.Results) == 3 {
